@@ -286,6 +286,12 @@ def finish(ctx, mod):
     replay_dir = os.path.join(VERIF, 'replays', ctx.prop)
     for key, (what, n) in sorted(ctx.known_seen.items()):
         lines.append('KNOWN-FINDING: property=%s key=%s %s (seen %d times)' % (ctx.prop, key, what, n))
+    if os.path.isdir(replay_dir):      # replay files of an earlier run are stale
+        for n in os.listdir(replay_dir):
+            try:
+                os.unlink(os.path.join(replay_dir, n))
+            except OSError:
+                pass
     if ctx.violations:
         rc = 1
         os.makedirs(replay_dir, exist_ok=True)
